@@ -262,10 +262,35 @@ func c16Trial(c *core.Ctx, idx int, self string, vi int, p2kind string, nsteps i
 		}
 	}
 	nBefore := len(readMarker(marker))
-	// P2
-	args := []string{"start", loc}
+	// P2: the same file, in a third of the trials under another spelling of its path, and in a
+	// third after the file has been saved with a different name: attribute while P1 runs
+	loc2 := loc
+	switch k % 6 {
+	case 1:
+		loc2 = filepath.Dir(loc) + "//" + filepath.Base(loc)
+	case 3:
+		loc2 = filepath.Dir(loc) + "/./" + filepath.Base(loc)
+	case 5:
+		if rel, err := filepath.Rel(h.root, loc); err == nil {
+			loc2 = rel // P2 is started in h.root
+		}
+	}
+	if loc2 != loc {
+		c.Count("second_starts_under_another_spelling_of_the_path", 1)
+		desc["second_start_path"] = loc2
+	}
+	if k%3 == 2 {
+		if b, err := os.ReadFile(loc); err == nil {
+			tmp := loc + ".edit"
+			_ = os.WriteFile(tmp, append([]byte("name: renamed-while-running\n"), b...), 0644)
+			_ = os.Rename(tmp, loc)
+			c.Count("definitions_saved_with_another_name_while_running", 1)
+			desc["definition_edited_while_running"] = "name: renamed-while-running"
+		}
+	}
+	args := []string{"start", loc2}
 	if p2kind == "retry" {
-		args = []string{"retry", "--req=" + retryReq, loc}
+		args = []string{"retry", "--req=" + retryReq, loc2}
 	}
 	p2 := exec.Command(h.bin, args...)
 	p2.Env = h.env()
